@@ -103,6 +103,15 @@ Fixpoint event_sum (lam inc : R) (ss : list bool) : R :=
 
 (* every remaining refractory time of the population lies in [0, refrac_t] *)
 Definition bounded (p : params RN) (cs : list (column RN)) : Prop := all_cells (fun ce => 0 <= snd ce <= refrac_t RN p) cs.
+(* an operation that writes refractory times from outside (refrac setter, load_state_dict) writes values in [0, refrac_t] *)
+Definition rows_bounded (p : params RN) (r : list (list R)) : Prop :=
+  Forall (Forall (fun x => 0 <= x <= refrac_t RN p)) r.
+Definition op_bounded (p : params RN) (o : op RN) : Prop :=
+  match o with
+  | OpSetRefrac r => rows_bounded p r
+  | OpLoad _ r _ => rows_bounded p r
+  | _ => True
+  end.
 
 (* the classes with the linear (leaky) integrator, and the analytic solution of the leaky integrator under a
    constant input x after k steps from v0 *)
